@@ -31,6 +31,7 @@ type uiModel struct {
 	reverse  bool // layout != default: index 0 is at the top
 	list     []int32
 	pageSize int
+	jumping  bool // the next key is a jump label
 }
 
 func isWordRune(r rune) bool { return unicode.IsLetter(r) || unicode.IsNumber(r) }
@@ -330,6 +331,8 @@ func (m *uiModel) apply(action string) bool {
 		if m.multi > 0 {
 			m.sel = nil
 		}
+	case "jump":
+		m.jumping = true
 	case "change-multi":
 		nm := m.multi
 		if arg == "" {
@@ -357,7 +360,14 @@ var c09Actions = []string{
 	"up", "down", "first", "last", "pos(3)", "pos(-2)", "pos(0)", "page-up", "page-down", "half-page-up", "half-page-down",
 	"select", "deselect", "toggle", "toggle+down", "toggle+up", "toggle-down", "toggle-up", "toggle-in", "toggle-out", "select-all", "deselect-all",
 	"toggle-all", "clear-selection", "change-multi(2)", "change-multi", "change-multi(0)",
+	"jump", "put(" + c09LongText + ")",
 }
+
+// longer than the 1000 runes a query may hold
+var c09LongText = strings.Repeat("ab cd ", 170)
+
+// the man page's default --jump-labels
+const c09JumpLabels = "asdfghjklqwertyuiopzxcvbnm1234567890ASDFGHJKLQWERTYUIOPZXCVBNM`~;:,<.>/?'\"!@#$%^&*()[{]}-_=+"
 
 var c09Keys = func() []string {
 	var ks []string
@@ -494,6 +504,10 @@ func genC09Plan(r *zsim.Rng) *sysPlan {
 		p.Events = append(p.Events, ev)
 		if settleEach || r.Chance(1, 5) {
 			p.Events = append(p.Events, sysEvent{Kind: "settle"})
+		}
+		if ev.Tag == "jump" && r.Chance(2, 3) {
+			// answer the prompt for a label (mostly one of the first few)
+			p.Events = append(p.Events, sysEvent{Kind: "keys", Keys: string("asdfghjklq"[r.Intn(10)])}, sysEvent{Kind: "settle"})
 		}
 		if feeds > 0 && r.Chance(feeds, nev-i) {
 			feeds--
@@ -759,6 +773,23 @@ func c09Settle(r *sysRun, st *c09State, busy bool, final bool) {
 			st.listExact = false
 		}
 		before := string(m.query)
+		if m.jumping {
+			// jump mode consumes the next key whatever it is: a label that designates a visible result moves the
+			// cursor there, anything else cancels; the key has no other effect
+			m.jumping = false
+			if strings.HasPrefix(ev.Tag, "char:") {
+				if idx := strings.Index(c09JumpLabels, ev.Tag[5:]); idx >= 0 && len([]rune(ev.Tag[5:])) == 1 && idx < m.pageSize && idx < len(m.list) {
+					if len(m.list) > m.pageSize {
+						// the label counts from the scroll offset, which the model does not keep
+						st.cursorLoose = true
+					} else {
+						m.cy = idx
+					}
+					c.count("probe.jump_taken", 1)
+				}
+			}
+			continue
+		}
 		if st.noInput {
 			// with --no-input every change of the query by an action is discarded
 			qb := append([]rune{}, m.query...)
@@ -768,6 +799,24 @@ func c09Settle(r *sysRun, st *c09State, busy bool, final bool) {
 			m.query, m.cx = qb, len(qb)
 		} else if !m.apply(ev.Tag) {
 			st.exact = false
+		}
+		if m.jumping && (len(m.list) == 0 || burstQueryChanged) {
+			// the renderer leaves jump mode again when it finds nothing to label; a key that follows before
+			// it got there is still swallowed - only a settle in between makes the outcome definite
+			if len(m.list) == 0 {
+				m.jumping = false
+			}
+			if burstQueryChanged || !(i+1 < len(r.plan.Events) && r.plan.Events[i+1].Kind == "settle") {
+				st.exact = false
+			}
+		}
+		if len(m.query) > 1000 {
+			// a query holds at most 1000 runes: cut after all actions of the key have run
+			m.query = m.query[:1000]
+			c.count("probe.query_truncated", 1)
+		}
+		if m.cx > len(m.query) {
+			m.cx = len(m.query)
 		}
 		if string(m.query) != before {
 			st.refreshList(r)
